@@ -56,3 +56,70 @@ package provisioning
 
 //verif:func newPipelineLocks() (p)
 //verif:ensures locksInv(p)
+
+// ---- C15: a failed import rolls back exactly the executed actions, newest
+// ---- first; updates converge to the configured id lists ----------------------
+
+//verif:func reverseActions(actions)
+//verif:modifies actions[*]
+//verif:ensures[reversed] forall k in [0, len(actions)): actions[k] == old(actions[len(actions) - 1 - k])
+//verif:loop 0 invariant 0 <= i && j == len(actions) - 1 - i && i <= j + 1 && (forall k in [0, i): actions[k] == old(actions[len(actions) - 1 - k]) && actions[len(actions) - 1 - k] == old(actions[k])) && (forall k in [i, j + 1): actions[k] == old(actions[k]))
+//verif:loop 0 decreases j - i + 1
+
+//verif:func (*Service).executeActions(s, ctx, actions) (n, err)
+//verif:call[do-in-order] action.Do requires recv == actions[count("action.Do")] && count("action.Do") < len(actions)
+//verif:ensures[failed-index] err != nil ==> 0 <= n && n < len(actions)
+//verif:ensures[all-done] err == nil ==> n == len(actions)
+//verif:ensures[stops-at-first-failure] (err != nil ==> count("action.Do") == n + 1) && (err == nil ==> count("action.Do") == len(actions))
+//verif:ensures[order-kept] forall m in [0, len(actions)): actions[m] == old(actions[m])
+//verif:loop 0 vars k=rangeindex
+//verif:loop 0 invariant count("action.Do") == k + 1 && k < len(actions) && (forall m in [0, len(actions)): actions[m] == old(actions[m]))
+
+//verif:func (*Service).rollbackActions(s, ctx, actions) (ok)
+//verif:call[rollback-in-given-order] action.Rollback requires recv == actions[count("action.Rollback")] && count("action.Rollback") < len(actions)
+//verif:ensures[every-action-rolled-back] count("action.Rollback") == len(actions)
+//verif:ensures[order-kept] forall m in [0, len(actions)): actions[m] == old(actions[m])
+//verif:loop 0 vars k=rangeindex
+//verif:loop 0 invariant count("action.Rollback") == k + 1 && k < len(actions) && (forall m in [0, len(actions)): actions[m] == old(actions[m]))
+
+//verif:func (*Service).importPipeline(s, ctx, newConfig, provisionedBy) (err)
+//verif:call[reverse-executed-prefix] reverseActions requires succeeded("(*Service).executeActions") == false && called("(*Service).executeActions") && base(arg0) == base(actions) && off(arg0) == off(actions) && len(arg0) == result_of("(*Service).executeActions", 0) + 1 && count("reverseActions") == 0
+//verif:call[rollback-reversed-prefix] (*Service).rollbackActions requires count("reverseActions") == 1 && arg_of("reverseActions", 0) == arg2 && count("(*Service).rollbackActions") == 0
+//verif:ensures[failure-rolls-back] called("(*Service).executeActions") && !succeeded("(*Service).executeActions") ==> called("(*Service).rollbackActions") && err != nil
+//verif:ensures[success-no-rollback] succeeded("(*Service).executeActions") ==> !called("(*Service).rollbackActions") && err == nil
+
+// The id list a service keeps for an instance.  conn_inst / pl_inst (spec/C15.smt2)
+// name the instance object the service holds for an id; the interface contracts
+// below restate, clause by clause (same labels), what is proved of
+// connector.(*Service) and pipeline.(*Service) in their own packages.
+//verif:def liveCP(svc, id) = ptr(conn_inst(svc, id), "*connector.Instance").ProcessorIDs
+
+//verif:iface ConnectorService.Update(recv, ctx, id, plugin, cfg) (inst, err)
+//verif:modifies ptr(conn_inst(recv, id), "*connector.Instance").Plugin, ptr(conn_inst(recv, id), "*connector.Instance").Config, ptr(conn_inst(recv, id), "*connector.Instance").UpdatedAt
+//verif:ensures[returns-held-instance] err == nil ==> inst != nil && inst == ptr(conn_inst(recv, id), "*connector.Instance")
+
+//verif:iface ConnectorService.RemoveProcessor(recv, ctx, id, procID) (inst, err)
+//verif:modifies liveCP(recv, id)[*], liveCP(recv, id), ptr(conn_inst(recv, id), "*connector.Instance").UpdatedAt
+//verif:ensures[removes-first-occurrence] err == nil ==> len(liveCP(recv, id)) == old(len(liveCP(recv, id))) - 1 && exists x in [0, old(len(liveCP(recv, id)))): old(liveCP(recv, id)[x]) == procID && (forall m in [0, x): old(liveCP(recv, id)[m]) != procID && liveCP(recv, id)[m] == old(liveCP(recv, id)[m])) && (forall m in [x, len(liveCP(recv, id))): liveCP(recv, id)[m] == old(liveCP(recv, id)[m + 1]))
+//verif:ensures[unchanged-on-error] err != nil ==> len(liveCP(recv, id)) == old(len(liveCP(recv, id))) && forall m in [0, len(liveCP(recv, id))): liveCP(recv, id)[m] == old(liveCP(recv, id)[m])
+//verif:ensures[in-place-or-fresh] base(liveCP(recv, id)) == old(base(liveCP(recv, id))) || fresh(liveCP(recv, id)) || isnil(liveCP(recv, id))
+
+//verif:iface ConnectorService.AddProcessor(recv, ctx, id, procID) (inst, err)
+//verif:modifies liveCP(recv, id)[*], liveCP(recv, id), ptr(conn_inst(recv, id), "*connector.Instance").UpdatedAt
+//verif:ensures[appends] err == nil ==> len(liveCP(recv, id)) == old(len(liveCP(recv, id))) + 1 && liveCP(recv, id)[len(liveCP(recv, id)) - 1] == procID && forall m in [0, old(len(liveCP(recv, id)))): liveCP(recv, id)[m] == old(liveCP(recv, id)[m])
+//verif:ensures[unchanged-on-error] err != nil ==> len(liveCP(recv, id)) == old(len(liveCP(recv, id))) && forall m in [0, len(liveCP(recv, id))): liveCP(recv, id)[m] == old(liveCP(recv, id)[m])
+//verif:ensures[in-place-or-fresh] base(liveCP(recv, id)) == old(base(liveCP(recv, id))) || fresh(liveCP(recv, id))
+
+//verif:func (updateConnectorAction).isEqual(a, ids, processors) (r)
+//verif:pure
+//verif:ensures[same-ids-same-order] r <==> (len(ids) == len(processors) && forall k in [0, len(ids)): ids[k] == processors[k].ID)
+//verif:loop 0 vars k=rangeindex
+//verif:loop 0 invariant k < len(ids) && len(ids) == len(processors) && forall m in [0, k + 1): ids[m] == processors[m].ID
+
+//verif:func (updateConnectorAction).update(a, ctx, cfg) (err)
+//verif:call[remove-only-listed] ConnectorService.RemoveProcessor requires arg1 == cfg.ID && exists x in [0, len(liveCP(a.connectorService, cfg.ID))): liveCP(a.connectorService, cfg.ID)[x] == arg2
+//verif:ensures[converges] err == nil ==> len(liveCP(a.connectorService, cfg.ID)) == len(cfg.Processors) && forall k in [0, len(cfg.Processors)): liveCP(a.connectorService, cfg.ID)[k] == cfg.Processors[k].ID
+//verif:loop 0 vars j=rangeindex
+//verif:loop 0 invariant j < len(procIDs) && base(procIDs) != base(liveCP(a.connectorService, cfg.ID)) && c == ptr(conn_inst(a.connectorService, cfg.ID), "*connector.Instance") && len(liveCP(a.connectorService, cfg.ID)) == len(procIDs) - (j + 1) && forall m in [0, len(liveCP(a.connectorService, cfg.ID))): liveCP(a.connectorService, cfg.ID)[m] == procIDs[j + 1 + m]
+//verif:loop 1 vars j1=rangeindex
+//verif:loop 1 invariant j1 < len(cfg.Processors) && len(liveCP(a.connectorService, cfg.ID)) == j1 + 1 && forall m in [0, j1 + 1): liveCP(a.connectorService, cfg.ID)[m] == cfg.Processors[m].ID
